@@ -28,6 +28,8 @@ ANCHOR_FILES = ["gpytorch/lazy/lazy_evaluated_kernel_tensor.py", "gpytorch/kerne
 
 KERNELS = {
     "rbf": {"k": "rbf"},
+    "rbf_eps": {"k": "rbf_eps"},  # the documented `eps` constructor option at a non-default value, lengthscale below it
+    "scale_matern_eps": {"k": "scale_matern_eps"},
     "scale_matern_ard": {"k": "scale", "base": {"k": "matern", "nu": 1.5, "ard": True}},
     "sum": {"k": "sum", "parts": [{"k": "rbf"}, {"k": "linear"}]},
     "prod_active": {"k": "prod", "parts": [{"k": "rbf", "active_dims": [0]}, {"k": "periodic", "active_dims": [2]}]},
@@ -68,6 +70,10 @@ def _build(name, pb):
     spec = KERNELS[name]
     bs = torch.Size(pb)
     K = gpytorch.kernels
+    if spec["k"] == "rbf_eps":
+        return K.RBFKernel(eps=0.5, batch_shape=bs)
+    if spec["k"] == "scale_matern_eps":
+        return K.ScaleKernel(K.MaternKernel(nu=2.5, eps=0.5, batch_shape=bs), batch_shape=bs)
     if spec["k"] == "multitask":
         return K.MultitaskKernel(K.RBFKernel(batch_shape=bs), num_tasks=spec["tasks"], rank=spec["rank"], batch_shape=bs)
     if spec["k"] == "rbfgrad":
@@ -186,6 +192,11 @@ def cases(tier, seed):
         pb = [2] if name not in GRADLIKE + ("lcm",) and rnd.random() < 0.5 else []
         n1, n2 = (3, 2) if _nout(name) > 1 else (5, 4)
         yield {"kind": "relations", "kernel": name, "pbatch": pb, "xbatch": pb, "n1": n1, "n2": n2, "moved_in_eval": True, "seed": rnd.randrange(10**6)}
+    # a (user-defined) kernel whose forward takes a call-time keyword: every object derived from the lazy tensor (index,
+    # transpose, repeat, expand, unsqueeze, diagonal) evaluates with the SAME keyword
+    for xb in ([], [2]):
+        for val in (0.3, 2.5):
+            yield {"kind": "call_kw", "xbatch": xb, "value": val, "n1": 5, "n2": 4, "seed": rnd.randrange(10**6)}
     yield from _chain_cases(tier, rnd)
 
 
@@ -257,7 +268,59 @@ def _data(case, g):
     return x1, x2
 
 
+class _KwKernel(__import__("gpytorch").kernels.Kernel):
+    """exp(-power * |x - z|^2 / lengthscale^2) with `power` given at call time (default 1)"""
+
+    has_lengthscale = True
+
+    def forward(self, x1, x2, diag=False, power=1.0, **params):
+        d2 = self.covar_dist(x1.div(self.lengthscale), x2.div(self.lengthscale), square_dist=True, diag=diag, **params)
+        return d2.mul(-power).exp()
+
+
+def _call_kw(case, ctx):
+    import torch
+
+    from gpytorch import settings as S
+    from vf import util
+
+    g = util.gen(case["seed"])
+    xb = case["xbatch"]
+    k = _KwKernel()
+    k.lengthscale = 0.8 + float(util.rand(g, 1))
+    x1, x2 = util.randn(g, *xb, case["n1"], 2), util.randn(g, *xb, case["n2"], 2)
+    pw = case["value"]
+    with torch.no_grad():
+        with S.lazily_evaluate_kernels(False):
+            D = k(x1, x2, power=pw).to_dense()
+            Dd = k(x1, x2).to_dense()
+        ctx.expect("call_kw_nontrivial", float((D - Dd).abs().max()) > 1e-3, "harness: the keyword has no effect")
+        L = k(x1, x2, power=pw)
+        ctx.expect("lazy_is_lazy", type(L).__name__ == "LazyEvaluatedKernelTensor", type(L).__name__)
+        nb = len(xb)
+        derived = {
+            "to_dense": (L.to_dense(), D),
+            "transpose": (L.transpose(-1, -2).to_dense(), D.transpose(-1, -2)),
+            "rows": (L[..., 1:4, :].to_dense(), D[..., 1:4, :]),
+            "index_tensor": (L[..., torch.tensor([0, 2, 2]), :][..., :, torch.tensor([1, 3])].to_dense(), D[..., torch.tensor([0, 2, 2]), :][..., :, torch.tensor([1, 3])]),
+            "repeat": (L.repeat(*([1] * nb), 2, 3).to_dense(), D.repeat(*([1] * nb), 2, 3)),
+            "repeat_then_index": (L.repeat(*([1] * nb), 2, 1)[..., 6:9, :].to_dense(), D.repeat(*([1] * nb), 2, 1)[..., 6:9, :]),
+            "expand": (L.expand(3, *L.shape).to_dense(), D.expand(3, *D.shape)),
+            "unsqueeze": (L.unsqueeze(0).to_dense(), D.unsqueeze(0)),
+            "diag_kw": (k(x1[..., :4, :], x2, diag=True, power=pw), torch.diagonal(D[..., :4, :], dim1=-2, dim2=-1)),
+            "lazy_diagonal": (k(x1[..., :4, :], x2, power=pw).diagonal(dim1=-2, dim2=-1), torch.diagonal(D[..., :4, :], dim1=-2, dim2=-1)),
+        }
+        if nb:
+            derived["batch_index"] = (L[1].to_dense(), D[1])
+        for tag, (got, ref) in derived.items():
+            got = got.to_dense() if hasattr(got, "to_dense") else got
+            ctx.close("call_time_keyword_kept", got, ref, (1e-12, 1e-12), cls="call_kw:" + tag, op=tag)
+    ctx.cell({k_: v_ for k_, v_ in case.items() if k_ != "seed"}, nontrivial=True)
+
+
 def run_case(case, ctx):
+    if case.get("kind") == "call_kw":
+        return _call_kw(case, ctx)
     global D_IN
     D_IN = case.get("d_in", 3)
     try:
@@ -276,6 +339,10 @@ def _run_case(case, ctx):
     name = case["kernel"]
     kern = _build(name, case["pbatch"])
     util.randomize(kern, g, 0.5)
+    if name.endswith("_eps"):
+        for mod_ in kern.modules():
+            if getattr(mod_, "has_lengthscale", False):
+                mod_.lengthscale = 0.1 + 0.25 * util.rand(g, *mod_.lengthscale.shape)  # below eps = 0.5
     x1, x2 = _data(case, g)
     b1, b2 = x1.clone(), x2.clone()
     fresh = None
